@@ -94,6 +94,7 @@ type c9Case struct {
 	Rounds     int  `json:"rounds"`
 	Ageing     bool `json:"ageing"`
 	Reloads    bool `json:"reloads"`
+	Stats      bool `json:"stats"`
 }
 
 type c9Entry struct {
@@ -1133,6 +1134,23 @@ func c9RunStress(c c9Case) (res c9Result) {
 			}
 		}()
 	}
+	// the periodic stats printers, while registrations with fresh generation / library version keys are validated
+	if c.Stats {
+		bg.Add(1)
+		go func() {
+			defer bg.Done()
+			lg := log.New(io.Discard, "[C09] ", golog.Ldate)
+			for {
+				select {
+				case <-stop:
+					return
+				default:
+				}
+				guard(func() { rm.PrintAndReset(lg); rm.RegistrationStats.PrintAndReset(lg) })
+				time.Sleep(150 * time.Microsecond)
+			}
+		}()
+	}
 	// reloads, with a goroutine that parses registrations (phantom selection, GeoIP lookups) meanwhile
 	if c.Reloads && len(confs) > 1 {
 		os.Setenv("PHANTOM_SUBNET_LOCATION", "./test/phantom_subnets.toml")
@@ -1176,6 +1194,11 @@ func c9RunStress(c c9Case) (res c9Result) {
 				for _, r := range c.Regs {
 					r := r
 					d := c9MakeReg(r)
+					if c.Stats {
+						// new keys for the per-generation / per-version stats maps in every round
+						d.DecoyListVersion = uint32(round*1000 + g*10 + 1)
+						d.clientLibVer = uint32(round*100 + g)
+					}
 					mu.Lock()
 					keyOfObj[d] = r.Key
 					mu.Unlock()
